@@ -349,6 +349,13 @@ func (c *ExprCtx) ident(name string) TV {
 
 // localAtPoint resolves a source-level variable name at the context's program point.
 func (c *ExprCtx) localAtPoint(name string) (TV, bool) {
+	// The nearest preceding mention of the name decides. That includes a field selector x.name: at `site store T.f`
+	// the bare identifier f therefore denotes the field being stored to (its value before the store) and shadows a
+	// variable of the same name - the C13/C14 contracts rely on it; entry(p) names a parameter unambiguously.
+	return c.localAtPointF(name, true)
+}
+
+func (c *ExprCtx) localAtPointF(name string, fields bool) (TV, bool) {
 	fr := c.fr
 	e := c.e
 	valOf := func(v ssa.Value) Val {
@@ -371,8 +378,7 @@ func (c *ExprCtx) localAtPoint(name string) (TV, bool) {
 				case *ssa.DebugRef:
 					if id := in.Expr; id != nil {
 						if obj := in.Object(); obj != nil && obj.Name() == name {
-							if vr, isVar := obj.(*types.Var); isVar && !vr.IsField() {
-								// (a field selector x.name is not the variable called name)
+							if vr, isVar := obj.(*types.Var); isVar && (fields || !vr.IsField()) {
 								if os.Getenv("GOWP_DEBUG") == "names" {
 									fmt.Fprintf(os.Stderr, "resolve %q: DebugRef in block %d -> %s (addr=%v)\n", name, b.Index, in.X.Name(), in.IsAddr)
 								}
